@@ -120,6 +120,10 @@ class GridFlow(WidgetWrap[Pile], WidgetContainerMixin, WidgetContainerListConten
         self._cache_maxcol = None
         super()._invalidate()
 
+    def selectable(self) -> bool:
+        """Selectable when any cell is (the display widget is rebuilt lazily and may be stale)."""
+        return any(w.selectable() for w, _options in self._contents)
+
     def _contents_modified(
         self,
         _slc: tuple[int, int, int],
